@@ -433,9 +433,8 @@ class Judge:
             it = chain['insts'][n]
             if delete and it.kind not in PERSIST_NONE:
                 loc = self.loc(chain, it)
-                if loc.state == 'indoubt':
-                    continue
-                if loc.state == 'complete':
+                if loc.state in ('complete', 'indoubt'):
+                    # (whatever an interrupted or failed attempt left: after delete_data there is no stored result)
                     loc.state = 'absent'
                     loc.stage = 0
                     if it.kind in ('genlazy', 'dir', 'cont'):
@@ -509,8 +508,30 @@ class Judge:
         if chain is None:
             return
         if 'err' in (o.get('res') or {}) and not o.get('crash'):
-            self.disc('C07', 'I-force', op['i'], 'Chain.force raised', err=o['res']['err'], tasks=op.get('names') or op['tasks'], delete=op.get('delete'))
-            self._force_failed(chain, sorted(self._closure(chain, op.get('names') or op['tasks'])))
+            closure = sorted(self._closure(chain, op.get('names') or op['tasks']))
+            if op.get('fault_expected') and op.get('recompute') and o['res']['err'][0] == 'RunFault':
+                # a run failed inside the recomputation: Chain.force passes the error on. Marking is complete before anything
+                # is recomputed, so every task of the closure that did not get to run inside this call is still forced
+                self.stats['force_recompute_failed'] = self.stats.get('force_recompute_failed', 0) + 1
+                ran = {(_slug_of(r['task']), r.get('key')) for r in o['inv']}
+                flags = o['res'].get('flags') or {}
+                for n in closure:
+                    it = chain['insts'][n]
+                    if (it.slug, chain['keys'].get(n)) not in ran and n in flags and flags[n] is not True:
+                        self.disc('C07', 'I-forced', op['i'], f'{n} was neither recomputed nor is it still marked forced after Chain.force(recompute=True) failed in another task',
+                                  flags={k: v for k, v in flags.items() if k in closure}, ran=sorted(map(str, ran)))
+                self._apply_force(chain, closure, False, op, o)
+                # missing upstream results were computed on demand before the failure: which of them is not predicted
+                for n2, it2 in chain['insts'].items():
+                    if it2.kind not in PERSIST_NONE:
+                        loc2 = self.loc(chain, it2)
+                        if loc2.state == 'absent':
+                            loc2.state = 'indoubt'
+                            loc2.stage_exact = False
+                            loc2.last_run = {'valid': False}
+            else:
+                self.disc('C07', 'I-force', op['i'], 'Chain.force raised', err=o['res']['err'], tasks=op.get('names') or op['tasks'], delete=op.get('delete'))
+            self._force_failed(chain, closure)
             return
         names = op.get('names') or op['tasks']
         forced = self._closure(chain, names)
